@@ -29,7 +29,7 @@ ASSUMPTIONS = {
 REQUIRED = {
     "C03": ["reads_compared", "crossing_rejected", "readback_after_reject", "evictions", "bfs_transitions", "prog_runs_compared", "uncounted_reads", "preloaded_histories", "asm_programs_compared"],
     "C09": ["counter_checks", "hits", "misses", "write_miss_no_allocate", "uncounted_reads", "penalty_checks_nonzero", "prog_stats_compared", "bfs_transitions", "warm_preloads_on_resident_block", "load_stats_checked"],
-    "C12": ["invariant_checks", "wt_resident_written", "wb_dirty_evictions", "bfs_transitions", "crossing_rejected"],
+    "C12": ["invariant_checks", "wt_resident_written", "wb_dirty_evictions", "bfs_transitions", "crossing_rejected", "invariant_checks_after_load", "invariant_checks_at_program_end"],
 }
 
 
@@ -45,6 +45,7 @@ def plan(prop, tier, seed):
         sh += [{"kind": "simpolicy", "n": 150 if q else 2500, "shard": i} for i in range(4 if q else 12)]
     if prop in ("C03", "C09"):
         sh += [{"kind": "prog", "n": 90 if q else 1500, "shard": i} for i in range(6 if q else 16)]
+    if prop in ("C03", "C09", "C12"):
         sh += [{"kind": "asmprog", "n": 40 if q else 700, "shard": i} for i in range(3 if q else 8)]
     return sh
 
@@ -951,6 +952,35 @@ def gen_asmprog_case(rng):
     return {"kind": "asmprog", "data": data, "stmts": stmts, "render": rng.getrandbits(30) + 1, "data_first": rng.random() < 0.5, "dcache": rand_cfg(rng, small=rng.random() < 0.6)}
 
 
+def policy_invariant(m, wt, logical_word, word_addrs, where, res, case, need_logical=True):
+    """C12's state invariant on a memory system inside a simulation.  logical_word(a) -> logical contents of the word at
+    a (None: unknown, only the clauses that need no logical contents are evaluated).  Returns False after a violation."""
+    tags, words, dirty = resident_view(m)
+    back = m.memory
+    res.count("invariant_checks")
+    for a in sorted(set(word_addrs) | set(words)):
+        try:
+            bk = int(back.read_word(a))
+        except Exception:
+            continue
+        lg = logical_word(a) if a in word_addrs else None
+        if wt:
+            if a in words and words[a] != bk:
+                res.violation("C12", "wt-resident-differs", "%s: resident word %#x = %#x, backing %#x" % (where, a, words[a], bk), case)
+                return False
+            if lg is not None and bk != lg:
+                res.violation("C12", "wt-backing-stale", "%s: backing word %#x = %#x, logical %#x" % (where, a, bk, lg), case)
+                return False
+        elif lg is not None:
+            if a not in words and bk != lg:
+                res.violation("C12", "wb-lost-write", "%s: word %#x not resident, backing %#x, logical %#x" % (where, a, bk, lg), case)
+                return False
+            if a in words and words[a] != lg:
+                res.violation("C12", "wb-resident-stale", "%s: resident word %#x = %#x, logical %#x" % (where, a, words[a], lg), case)
+                return False
+    return True
+
+
 def run_asmprog(case, res, prop):
     from ..gen import asm_rv as A
 
@@ -965,6 +995,12 @@ def run_asmprog(case, res, prop):
                 res.violation("C04", "load-failed", "generated data program failed to load: %r" % (e,), case)
                 return
             if dc is not None:
+                # C12: the loader's writes obey the configured policy's invariant (logical contents = the declared image)
+                _v, img_, _e = A.layout(case["data"])
+                wa = {a_ & ~3 for a_ in img_}
+                res.count("invariant_checks_after_load")
+                if not policy_invariant(sim.state.memory, dc["wt"], lambda a_: sum(img_.get(a_ + i_, 0) << (8 * i_) for i_ in range(4)), wa, "%s mode, right after load_program of a data program, %s configured" % (mode, "write-through" if dc["wt"] else "write-back"), res, case) and prop == "C12":
+                    return
                 # parser preloads leave the counters untouched
                 st = sim.get_data_cache_stats()
                 res.count("load_stats_checked")
@@ -982,6 +1018,13 @@ def run_asmprog(case, res, prop):
                 # block-aligned address when a cache fill faults) is not part of "registers, output, exit code"
                 outs[(mode, dc is not None)] = ("EXC", type(e).__name__, getattr(e, "address", None), real_regs(sim), sim.state.output)
                 continue
+            if dc is not None and (mode, False) in outs and outs[(mode, False)][0] != "EXC":
+                # C12 at the end of the run: logical contents = what the same program leaves in an uncached memory
+                flat_ = outs[(mode, False)][3]
+                wa = {a_ & ~3 for a_ in flat_}
+                res.count("invariant_checks_at_program_end")
+                if not policy_invariant(sim.state.memory, dc["wt"], lambda a_: sum(flat_.get(a_ + i_, 0) << (8 * i_) for i_ in range(4)), wa, "%s mode, end of an assembler-loaded data program, %s configured" % (mode, "write-through" if dc["wt"] else "write-back"), res, case) and prop == "C12":
+                    return
             outs[(mode, dc is not None)] = (real_regs(sim), sim.state.output, sim.state.exit_code, pipe.mem_image(sim), bool(sim.is_done()))
     res.count("asm_programs_compared")
     names = ["registers", "output", "exit code", "memory", "done"]
@@ -1091,8 +1134,14 @@ def run_simpolicy_case(case, res):
             while not sim5.is_done() and n5 < 6 * case["max_instr"] + 50:
                 sim5.step()
                 n5 += 1
-        except Exception:
+        except Exception as e5:
             n5 = -1
+            # "at every point of any access history": also right after a step that failed (the failure itself is
+            # C02/C03's business).  Logical contents are unknown here; write-through's 'every resident block is
+            # identical to its backing block' needs none.
+            res.count("invariant_checks_after_failed_step")
+            if not policy_invariant(sim5.state.memory, wt, lambda a_: None, set(), "five-stage run, after step %d failed with %s, %s configured" % (n5, type(e5).__name__, "write-through" if wt else "write-back"), res, case):
+                return
         if n5 >= 0 and sim5.is_done():
             m5 = sim5.state.memory
             tags, words, dirty = resident_view(m5)
